@@ -53,7 +53,7 @@ def only_negligible(decisions_values):
     (rtol <= 1e-9, atol <= 1e-30): such a path is a refinement of exact equality of the operands, which a run on
     generic symbolic operands does not represent (it is judged on instances where the operands are identical)."""
     for value, outcome in decisions_values:
-        if not outcome:
+        if not outcome or (isinstance(value, tuple) and value[:1] == ('zero',)):
             continue
         tols = tolerances(value)
         if not tols:
@@ -67,7 +67,17 @@ def only_negligible(decisions_values):
     return True
 
 
-def approx_paths(run, fallback=None, max_paths=32, records=None):
+def bare_symbol(v):
+    """name of the atom when v is exactly one symbol (coefficient 1, power 1), else None"""
+    from .algebra import Poly, Z8
+    if isinstance(v, Poly) and len(v.t) == 1:
+        (mono, c), = v.t.items()
+        if c == Z8.ONE and len(mono) == 1 and mono[0][1] == 1:
+            return mono[0][0]
+    return None
+
+
+def approx_paths(run, fallback=None, max_paths=32, records=None, zero_symbols=()):
     """run(oracle) -> result.  Returns [(decisions, result, InterpRaise or None)], one entry per combination of outcomes of
     the tolerance predicates met; any other undetermined branch goes to `fallback` (None: analysis error)."""
     ex = Explorer(max_paths=max_paths)
@@ -84,6 +94,13 @@ def approx_paths(run, fallback=None, max_paths=32, records=None):
                 while isinstance(e, Unk) and isinstance(e.expr, tuple) and e.expr[:1] == ('not',):
                     neg, e = not neg, Unk(e.expr[1])
                 rec.append((e, r != neg))
+                return r
+            sym = bare_symbol(value)
+            if sym is not None and sym in zero_symbols:
+                # truthiness of an input symbol (`if not x0:`): both x0 == 0 and x0 != 0 are inputs; the outcome is recorded
+                # so that the rule can judge the `== 0` side under that hypothesis
+                r = oracle(interp, node, fr, Unk(('fn', 'nonzero', sym)))
+                rec.append((('zero', sym), not r))
                 return r
             return fallback(interp, node, fr, value) if fallback is not None else None
         return run(o)
